@@ -96,6 +96,14 @@ func headerCases() []headerCase {
 			ok(fmt.Sprintf("v1-tcp6-%s-%d", a[0], p[0]), []byte(fmt.Sprintf("PROXY TCP6 %s %s %d %d\r\n", a[0], a[1], p[0], p[1])), hp(a[0], p[0]), hp(a[1], p[1]))
 		}
 	}
+	// every line length from the minimum of each family upwards, one byte at a time (ports grow digit by digit)
+	ladder := [][2]int{{1, 2}, {1, 22}, {11, 22}, {11, 222}, {111, 222}, {111, 2222}, {1111, 2222}, {1111, 22222}, {11111, 22222}}
+	for _, p := range ladder {
+		l4 := []byte(fmt.Sprintf("PROXY TCP4 1.1.1.1 2.2.2.2 %d %d\r\n", p[0], p[1]))
+		ok(fmt.Sprintf("v1-tcp4-line-of-%d-bytes", len(l4)), l4, hp("1.1.1.1", p[0]), hp("2.2.2.2", p[1]))
+		l6 := []byte(fmt.Sprintf("PROXY TCP6 ::1 :: %d %d\r\n", p[0], p[1]))
+		ok(fmt.Sprintf("v1-tcp6-line-of-%d-bytes", len(l6)), l6, hp("::1", p[0]), hp("::", p[1]))
+	}
 	sock("v1-unknown-bare", []byte("PROXY UNKNOWN\r\n"))
 	sock("v1-unknown-with-addresses", []byte("PROXY UNKNOWN ffff:ffff:ffff:ffff:ffff:ffff:ffff:ffff ffff:ffff:ffff:ffff:ffff:ffff:ffff:ffff 65535 65535\r\n")) // 107 bytes: the longest legal line
 	bad("v1-line-108-bytes", []byte("PROXY UNKNOWN ffff:ffff:ffff:ffff:ffff:ffff:ffff:ffff ffff:ffff:ffff:ffff:ffff:ffff:ffff:ffff 65535 655350\r\n"), "line longer than 107 bytes")
